@@ -595,11 +595,14 @@ def events(cx, sym: Sym) -> List[Event]:
             if isinstance(st, (ast.Assign, ast.AnnAssign, ast.AugAssign)):
                 targets = st.targets if isinstance(st, ast.Assign) else [st.target]
                 for t in targets:
-                    for el in (t.elts if isinstance(t, (ast.Tuple, ast.List)) else [t]):
+                    unpack = isinstance(t, (ast.Tuple, ast.List))
+                    for i_el, el in enumerate(t.elts if unpack else [t]):
                         if isinstance(el, (ast.Attribute, ast.Subscript)):
                             ev = Event(n.id, "store", st)
                             ev.target = sym.of(el, n.id)
                             ev.value = sym.of(st.value, n.id) if getattr(st, "value", None) is not None else None
+                            if unpack and ev.value is not None:
+                                ev.value = Sym._item(ev.value, i_el)
                             if isinstance(st, ast.AugAssign):
                                 ev.value = ("aug", A.BINOP_TOKEN.get(type(st.op), "?"), ev.target, ev.value)
                             out.append(ev)
